@@ -30,7 +30,7 @@ func init() {
 		},
 		Cases: func(tier string) int {
 			if tier == "thorough" {
-				return 3200
+				return 2400
 			}
 			return 96
 		},
@@ -42,7 +42,7 @@ func init() {
 }
 
 // floors: about half of the minimum measured at seeds 1..5 of the quick tier (96 cases); the thorough
-// tier runs 33 times as many cases.
+// tier runs 25 times as many cases (floors x22).
 func floors(tier string) map[string]int64 {
 	f := map[string]int64{
 		"blocks": 170, "txs_committed": 1300, "txs_failed_status": 130, "conservation_checks": 550,
@@ -55,7 +55,7 @@ func floors(tier string) map[string]int64 {
 	}
 	if tier == "thorough" {
 		for k := range f {
-			f[k] *= 30
+			f[k] *= 22
 		}
 	}
 	return f
